@@ -36,6 +36,44 @@ def run(repo, rep):
         c08.run(repo, rep)
     with rep.borrow({"C03-e": "C02-g"}):
         c03.run(repo, rep)
+    rep.clause("C02-h", "the memory mode and arena cache size that bound the regions are the ones the selected configuration section defines (a section's own key overrides what it inherits) [rule shared with C18-b]")
+    from . import c18
+
+    with rep.borrow({"C18-b": "C02-h"}):
+        c18.run(repo, rep)
+    rep.clause("C02-i", "byte offsets computed by graph rewrites use each tensor dimension in its layout position: 4-element shape unpackings name N,H,W,C (feature maps) / H,W,I,O (weights) in order")
+    rule_shape_unpack(repo, rep)
+
+
+SHAPE_AXES = {"n": 0, "batch": 0, "h": 1, "height": 1, "w": 2, "width": 2, "c": 3, "depth": 3, "channels": 3, "d": 3}
+
+
+def _unpack_axis(name):
+    """Layout position (NHWC numbering) an unpack target is named after, None if it names nothing recognisable."""
+    m = re.fullmatch(r"(?:[a-z]+_)??(?:o|i|k|ofm|ifm|in|out|input|output|kernel)?_?(n|batch|h|height|w|width|c|depth|channels|d)\d*", name.lower())
+    return SHAPE_AXES[m.group(1)] if m else None
+
+
+def rule_shape_unpack(repo, rep):
+    n = 0
+    for m in repo.core_modules():
+        for q, fn in m.functions.items():
+            for st in ast.walk(fn):
+                if not (isinstance(st, ast.Assign) and isinstance(st.targets[0], ast.Tuple) and len(st.targets[0].elts) == 4 and re.search(r"(^|[._])shape$", norm(st.value))):
+                    continue
+                src = norm(st.value)
+                weights = bool(re.search(r"weight|inputs\[1\]|filter|kernel", src))
+                want = [1, 2, None, None] if weights else [0, 1, 2, 3]
+                names = [norm(e) for e in st.targets[0].elts]
+                got = [None if x == "_" else _unpack_axis(x) for x in names]
+                if all(g is None for g in got):
+                    continue
+                n += 1
+                bad = [(nm, i) for i, (nm, g) in enumerate(zip(names, got)) if g is not None and want[i] is not None and g != want[i]]
+                bad += [(nm, i) for i, (nm, g) in enumerate(zip(names, got)) if g is not None and want[i] is None and weights and g in (1, 2)]
+                rep.check(not bad, "C02-i", f"ethosu/vela/{m.name}.py:{q}", f"`{norm(st)[:70]}` binds each name to the dimension it names ({'HWIO' if weights else 'NHWC'})",
+                          "; ".join(f"`{nm}` takes dimension {i}" for nm, i in bad) + ": offsets / sizes derived from it address the tensor along the wrong dimension")
+    rep.floor("C02-i", 6)
 
 
 def rule_a(repo, rep):
